@@ -688,13 +688,13 @@ _INFO = {"name": "E-CHANOPS-mpmcb",
 _ASSUME = [
     "mpmcb: sequential histories only (K2); the two sync waiter queues are empty in every sequential history (blocking forms are issued only where they return without parking; recv_timeout uses a zero timeout)",
     "mpmcb: UnsynchronizedRingBuffer is modelled as a list (index arithmetic exercised by D1 incl. non-power-of-two capacities and wrap); HybridMutex sections are atomic steps",
-    "mpmcb: batch / in-place batch forms and Stream::poll_next are not modelled yet (not generated by D1 either)",
+    "mpmcb: the blocking batch forms (send_batch[_mut], recv_batch[_mut]), the four batch futures and Stream::poll_next are not modelled (not generated by D1 either); try_send_batch[_mut] / try_recv_batch[_mut] are",
 ]
 
 F = FIXES
 PROPS = {
     "C01": {"engines": [ENG], "witness": {}, "assumptions": _ASSUME, "engine_info": _INFO,
-            "covers": "mpmc bounded (sync+async handles, single-item forms, futures): conservation, NoDup, failed ops have no effect (K2)"},
+            "covers": "mpmc bounded (sync+async handles; single-item forms, try batch / in-place batch forms, SendFuture/RecvFuture): conservation, NoDup, failed ops have no effect, sent ++ unsent = input (K2)"},
     "C02": {"engines": [ENG], "witness": {}, "assumptions": _ASSUME, "engine_info": _INFO,
             "covers": "mpmc bounded: accepted = received ++ buffered in order for every history (K2)"},
     "C03": {"engines": [ENG], "witness": {}, "assumptions": _ASSUME, "engine_info": _INFO,
